@@ -179,8 +179,17 @@ Inductive nevent :=
 | EPutS (w key : nat)          (* announce_signed_peer *)
 | EGetS (r key : nat)          (* get_signed_peers *)
 | EPutGet (r key : nat)        (* a put of the key and, in the same instant, a get of it on the same node: the get joins the put's lookup *)
-| EGetJoin (r key : nat).      (* find_node(target of the key) and, in the same instant, a get of the key on the same node:
+| EGetJoin (r key : nat)
+| EStart (d : nat) (server : bool) (boots : list nat).   (* a node comes up at an address nobody answered at before *)      (* find_node(target of the key) and, in the same instant, a get of the key on the same node:
                                   the get joins the find_node lookup (lookups are keyed by target alone) and receives nothing *)
+
+(* a server (or client) starts at the address of entry d, which was dead so far, and runs its bootstrap lookup *)
+Definition start (nt : net) (d : nat) (server : bool) (boots : list nat) : net :=
+  let nt' := upd nt d (fun _ => {| n_alive := true; n_server := server; n_boots := boots; n_main := []; n_signed := [];
+                                    n_store := []; n_cache := [] |}) in
+  match boots with [] => nt' | _ => lookup nt' d true None end.
+
+Definition is_start (e : nevent) : bool := match e with EStart _ _ _ => true | _ => false end.
 
 Definition nstep0 (nt : net) (e : nevent) : net :=
   match e with
@@ -203,6 +212,7 @@ Definition nstep0 (nt : net) (e : nevent) : net :=
                                                       (add1 r (n_signed nd'))
                           else nd')
       else nt
+  | EStart d s b => if n_alive (get nt d) then nt else start nt d s b
   end.
 
 (* A node whose main table is empty asks its bootstrap nodes again in every loop iteration
